@@ -557,7 +557,52 @@ Print Assumptions C01_never_stale_nd.
     map; individuals 1 and 2 rejected, then column 0 rejected ([right_broadcasting=False]): both histories meet the precondition and
     every read afterwards is the from-scratch value; with the weight of one side kept for all rows the same history reads stale
     values; the mask aligned on the wrong side reverts individuals where the code refuses the call *)
-Definition C01_nd_examples_statement := ltac:(let t := type of nd_examples in exact t).
-Theorem C01_nd_examples : C01_nd_examples_statement.
+Local Open Scope Z_scope.
+Theorem C01_nd_examples :
+  gwf_b (mk_ngraph nd_nodes) = true /\ entrywise_axis_b nd_nodes = true /\
+  (* individuals 1 and 2 rejected (right-broadcasting), then columns: column 0 rejected (right_broadcasting=False) *)
+  MaskDisciplined (mk_ngraph nd_nodes) nsem (init_store (mk_ngraph nd_nodes)) (nd_ops (true, [false; true; true])) /\
+  MaskDisciplined (mk_ngraph nd_nodes) nsem (init_store (mk_ngraph nd_nodes)) (nd_ops (false, [true; false])) /\
+  nread_of (mk_ngraph nd_nodes) nsem true (nd_ops (true, [false; true; true])) 0 1
+    = Ok (NW (mat [[5;1];[2;7];[4;0]]) (Some (mat [[1;0];[0;1];[1;0]]))) /\
+  nread_of (mk_ngraph nd_nodes) nsem true (nd_ops (false, [true; false])) 0 1
+    = Ok (NW (mat [[1;1];[2;3];[4;3]]) (Some (mat [[0;0];[0;1];[1;1]]))) /\
+  all_fresh nsem (nd_ops (true, [false; true; true])) = true /\ all_fresh nsem (nd_ops (false, [true; false])) = true /\
+  (* the two rules that are NOT the code leave stale reads on the same histories *)
+  all_fresh nsem_old_weight (nd_ops (true, [false; true; true])) = false /\
+  nread_of (mk_ngraph nd_nodes) nsem_old_weight true (nd_ops (true, [false; true; true])) 0 1
+    = Ok (NW (mat [[5;1];[2;7];[4;0]]) (Some (mat [[0;1];[0;1];[1;0]]))) /\
+  (* a mask of length 3 with right_broadcasting=False against (3, 2) values: refused (x keeps the proposal); the rule that aligns the
+     mask on the wrong side accepts it and reverts individuals 0 and 2 *)
+  nread_of (mk_ngraph nd_nodes) nsem true (nd_ops (false, [true; false; true])) 0 0 = Ok (NP (mat [[5;1];[6;3];[4;3]])) /\
+  nread_of (mk_ngraph nd_nodes) nsem_wrong_side true (nd_ops (false, [true; false; true])) 0 0 = Ok (NP (mat [[1;5];[6;3];[4;0]])).
 Proof. exact nd_examples. Qed.
+Local Close Scope Z_scope.
 Print Assumptions C01_nd_examples.
+
+(** histories with scoped blocks on n-d graphs of the entry-wise class: in every store the execution goes through (inside a block, after an
+    exception left a block, at the end) a read that returns a value returns the from-scratch evaluation — no hypothesis on node functions *)
+Theorem C01_never_stale_scoped_nd :
+  forall l : list dspec,
+  gwf_b (mk_ngraph l) = true -> entrywise_axis_b l = true ->
+  forall h, SMaskDisciplined (mk_ngraph l) nsem (init_store (mk_ngraph l)) h ->
+  forall s', In s' (visits (mk_ngraph l) nsem true (init_store (mk_ngraph l)) h) ->
+  forall k i st v, nth_error s' k = Some st ->
+    snd (step_now (mk_ngraph l) nsem s' (Get k i)) = Ok v -> scratch (mk_ngraph l) (values st) i = Some v.
+Proof. exact never_stale_scoped_nd. Qed.
+Print Assumptions C01_never_stale_scoped_nd.
+
+(** non-vacuity: (3, 2) values; a fork pending; [with auto_fork(None)]: a read, the assignment of a non-settable variable raises and leaves
+    the block (the next assignment is skipped); REF again: a forked proposal, a read, individuals 1 and 2 rejected — the history meets the
+    precondition, flattens to the plain history shown and every read after it is the from-scratch value *)
+Local Open Scope Z_scope.
+Theorem C01_nd_scoped_example :
+  SMaskDisciplined (mk_ngraph nd_nodes) nsem (init_store (mk_ngraph nd_nodes)) nd_scoped_ops /\
+  hflat (mk_ngraph nd_nodes) nsem true (init_store (mk_ngraph nd_nodes)) nd_scoped_ops =
+    [ SetMode 0 (Some REF); Set_ 0 0 (Some (NP (mat [[1;5];[2;7];[4;0]]))); Get 0 5;
+      SetMode 0 None; Get 0 6; Set_ 0 5 (Some (NP (T0 (AFin 1)))); SetMode 0 (Some REF);
+      Put 0 0 None (NP (mat [[4;-4];[4;-4];[0;3]])) true; Get 0 5; RevertMask 0 (true, [false; true; true]) ] /\
+  all_fresh nsem (hflat (mk_ngraph nd_nodes) nsem true (init_store (mk_ngraph nd_nodes)) nd_scoped_ops) = true.
+Proof. exact nd_scoped_example. Qed.
+Local Close Scope Z_scope.
+Print Assumptions C01_nd_scoped_example.
